@@ -21,6 +21,8 @@ pub struct VDoc {
     pub age: u64,
     pub opt: Option<u64>,
     pub tags: Vec<String>,
+    #[unique]
+    pub codes: Vec<String>,
     pub body: String,
     pub emb: Vector,
 }
@@ -32,24 +34,30 @@ pub fn emb_of(age: u64, salt: u64) -> Vector {
 }
 
 pub fn vdoc(name: &str, age: u64, opt: Option<u64>, tags: &[&str], body: &str) -> VDoc {
+    vdoc_codes(name, age, opt, tags, &[], body)
+}
+
+pub fn vdoc_codes(name: &str, age: u64, opt: Option<u64>, tags: &[&str], codes: &[&str], body: &str) -> VDoc {
     VDoc {
         _id: 0,
         name: name.to_string(),
         age,
         opt,
         tags: tags.iter().map(|s| s.to_string()).collect(),
+        codes: codes.iter().map(|s| s.to_string()).collect(),
         body: body.to_string(),
         emb: emb_of(age, name.len() as u64),
     }
 }
 
 /// Which indexes the open callback creates.
-#[derive(Clone, Copy, Debug, PartialEq, Eq)]
+#[derive(Clone, Copy, Debug, PartialEq, Eq, Hash, Serialize, Deserialize)]
 pub struct Idx {
     pub name: bool,
     pub age: bool,
     pub opt: bool,
     pub tags: bool,
+    pub codes: bool,
     pub age_opt: bool,
     pub body: bool,
     pub emb: bool,
@@ -61,6 +69,7 @@ impl Idx {
         age: true,
         opt: true,
         tags: true,
+        codes: true,
         age_opt: false,
         body: true,
         emb: true,
@@ -70,6 +79,7 @@ impl Idx {
         age: true,
         opt: true,
         tags: true,
+        codes: false,
         age_opt: false,
         body: false,
         emb: false,
@@ -79,6 +89,7 @@ impl Idx {
         age: false,
         opt: false,
         tags: false,
+        codes: false,
         age_opt: false,
         body: false,
         emb: false,
@@ -112,6 +123,13 @@ pub fn hnsw_config() -> HnswConfig {
 }
 
 pub async fn open_coll(db: &AndaDB, idx: Idx) -> Result<Arc<Collection>, DBError> {
+    open_coll_with(db, idx, idx).await
+}
+
+/// Opens (or creates) the collection; the callback creates every index of
+/// `want` that does not exist and removes every index that `had` names but
+/// `want` does not.
+pub async fn open_coll_with(db: &AndaDB, idx: Idx, had: Idx) -> Result<Arc<Collection>, DBError> {
     db.open_or_create_collection(
         VDoc::schema()?,
         CollectionConfig {
@@ -131,6 +149,9 @@ pub async fn open_coll(db: &AndaDB, idx: Idx) -> Result<Arc<Collection>, DBError
             if idx.tags {
                 c.create_btree_index_nx(&["tags"]).await?;
             }
+            if idx.codes {
+                c.create_btree_index_nx(&["codes"]).await?;
+            }
             if idx.age_opt {
                 c.create_btree_index_nx(&["age", "opt"]).await?;
             }
@@ -139,6 +160,18 @@ pub async fn open_coll(db: &AndaDB, idx: Idx) -> Result<Arc<Collection>, DBError
             }
             if idx.emb {
                 c.create_hnsw_index_nx("emb", hnsw_config()).await?;
+            }
+            if had.tags && !idx.tags {
+                c.remove_btree_index(&["tags"]).await?;
+            }
+            if had.name && !idx.name {
+                c.remove_btree_index(&["name"]).await?;
+            }
+            if had.body && !idx.body {
+                c.remove_bm25_index(&["body"]).await?;
+            }
+            if had.emb && !idx.emb {
+                c.remove_hnsw_index("emb").await?;
             }
             Ok(())
         },
